@@ -49,7 +49,7 @@ func init() {
 	register("C13", "", ruleMapRanges(scAll, 30), ruleReducers, ruleSelects, ruleCallers(func(c string) bool { return c == "time.Now" }), ruleGoSites)
 	register("C14", "", rulePlanImmutable, ruleCacheKey, ruleLocks(plannerPkg+".CachedPlanner"))
 	register("C13", "", ruleLocks(plannerPkg+".CachedPlanner", modPath+"/executor.CachedPointDataExtractor"))
-	register("C18", "", ruleLocks(modPath+".subscriptionEntry"), ruleChannels, ruleConnWriters, ruleTeardown, ruleGoSites)
+	register("C18", "", ruleLocks(modPath+".subscriptionEntry"), ruleChannels, ruleConnWriters, ruleTeardown, ruleGoSites, ruleSubscriptionRegistry)
 	register("C17", "", ruleEventPath, ruleChannels, ruleGoSites, ruleUpstreamForward)
 	register("C06", "", ruleOperationType, rulePlanImmutable, ruleCacheKey, ruleCallers(nil))
 	register("C02", "", ruleOperationType, ruleCacheKey)
